@@ -86,11 +86,11 @@ func Tokens(doc []byte) (toks []Tok, more bool) {
 type Oracles struct {
 	Float   map[string][2]uint64 // literal -> Float64bits(v), Float32bits(float32(v))
 	Time    map[string][2]int64  // literal -> Unix seconds, nanosecond
-	Decimal map[string]string    // literal -> canonical String()
+	Decimal map[string]DecRes    // literal -> canonical String() and exponent
 }
 
 func NewOracles() *Oracles {
-	return &Oracles{Float: map[string][2]uint64{}, Time: map[string][2]int64{}, Decimal: map[string]string{}}
+	return &Oracles{Float: map[string][2]uint64{}, Time: map[string][2]int64{}, Decimal: map[string]DecRes{}}
 }
 
 // Add records what strconv.ParseFloat / time.Parse / decimal.NewFromString say about s.
@@ -98,18 +98,25 @@ func (o *Oracles) Add(s string, isString bool) {
 	if f, err := strconv.ParseFloat(s, 64); err == nil {
 		o.Float[s] = [2]uint64{math.Float64bits(f), uint64(math.Float32bits(float32(f)))}
 	}
+	if d, err := safeDecimal(s); err == nil {
+		o.Decimal[s] = d
+	}
 	if !isString {
 		return
 	}
 	if t, err := time.Parse(time.RFC3339, s); err == nil {
 		o.Time[s] = [2]int64{t.Unix(), int64(t.Nanosecond())}
 	}
-	if d, err := safeDecimal(s); err == nil {
-		o.Decimal[s] = d
-	}
 }
 
-func safeDecimal(s string) (out string, err error) {
+// DecRes is what decimal.NewFromString says: the exponent, and the canonical
+// text when writing it out is affordable (String() expands the exponent).
+type DecRes struct {
+	Canon string
+	Exp   int32
+}
+
+func safeDecimal(s string) (out DecRes, err error) {
 	defer func() {
 		if r := recover(); r != nil {
 			err = fmt.Errorf("panic: %v", r)
@@ -117,9 +124,13 @@ func safeDecimal(s string) (out string, err error) {
 	}()
 	d, err := decimal.NewFromString(s)
 	if err != nil {
-		return "", err
+		return DecRes{}, err
 	}
-	return d.String(), nil
+	out.Exp = d.Exponent()
+	if out.Exp <= 5000 && out.Exp >= -5000 {
+		out.Canon = d.String()
+	}
+	return out, nil
 }
 
 func (o *Oracles) AddTokens(ts []Tok) {
@@ -142,7 +153,7 @@ func sortedKeys[V any](m map[string]V) []string {
 	return ks
 }
 
-// Coq renders the three tables as terms: list (bytes * (N * N)), list (bytes * (Z * Z)), list (bytes * bytes).
+// Coq renders the three tables as terms: list (bytes * (N * N)), list (bytes * (Z * Z)), list (bytes * (bytes * Z)).
 func (o *Oracles) Coq() (string, string, string) {
 	var f, t, d []string
 	for _, k := range sortedKeys(o.Float) {
@@ -152,7 +163,7 @@ func (o *Oracles) Coq() (string, string, string) {
 		t = append(t, fmt.Sprintf("(%s, ((%d)%%Z, (%d)%%Z))", BytesTerm(k), o.Time[k][0], o.Time[k][1]))
 	}
 	for _, k := range sortedKeys(o.Decimal) {
-		d = append(d, fmt.Sprintf("(%s, %s)", BytesTerm(k), BytesTerm(o.Decimal[k])))
+		d = append(d, fmt.Sprintf("(%s, (%s, (%d)%%Z))", BytesTerm(k), BytesTerm(o.Decimal[k].Canon), o.Decimal[k].Exp))
 	}
 	return "[" + strings.Join(f, "; ") + "]", "[" + strings.Join(t, "; ") + "]", "[" + strings.Join(d, "; ") + "]"
 }
